@@ -24,8 +24,11 @@ def gen(seed):
     return torch.Generator().manual_seed(int(seed))
 
 
+DTYPE = [torch.float64]     # dtype of the input tensors of the case being run ("dtype": "f32" -> float32)
+
+
 def tens(flat, shape):
-    return torch.tensor(flat, dtype=torch.float64).reshape(shape)
+    return torch.tensor(flat, dtype=torch.float64).reshape(shape).to(DTYPE[0])
 
 
 def rows(t, n):
@@ -157,6 +160,120 @@ class Replayer:
         return []
 
 
+class StubLayer:
+    """ADVERSARIAL SCHEDULES: inside this harness process only, every sampling primitive an encoder may draw from
+    is replaced by a stub that hands out values from a schedule chosen by the case generator (cyclic streams
+    "exp" for exponential_, "pois" for poisson, "unif" for bernoulli / rand / rand_like / uniform_ / bernoulli_;
+    bernoulli(p) is [u < p], the documented meaning).  Every call is logged, the log is what the Coq model is fed.
+    Fail closed: the encoder gets a real seeded generator; if its state (or the global RNG's) has changed after
+    the call, the encoder drew from a primitive this layer does not cover."""
+
+    def __init__(self, sched):
+        self.sched = sched
+        self.pos = {k: 0 for k in sched}
+        self.log = []
+
+    def take(self, stream, n):
+        src = self.sched.get(stream) or [0.5]
+        p = self.pos.get(stream, 0)
+        vals = [src[(p + i) % len(src)] for i in range(n)]
+        self.pos[stream] = p + n
+        return vals
+
+    def _t(self, vals, shape, dtype):
+        return torch.tensor(vals, dtype=torch.float64).reshape(shape).to(dtype if dtype is not None else DTYPE[0])
+
+    def __enter__(self):
+        L = self
+        self.saved = {n: getattr(torch, n) for n in ("poisson", "bernoulli", "rand", "rand_like")}
+
+        def exponential_(self, lambd=1.0, *, generator=None):
+            vals = L.take("exp", self.numel())
+            self.copy_(L._t(vals, self.shape, self.dtype) / lambd)
+            L.log.append({"prim": "exponential_", "shape": list(self.shape), "vals": vals})
+            return self
+
+        def uniform_(self, a=0.0, b=1.0, *, generator=None):
+            vals = L.take("unif", self.numel())
+            self.copy_(a + (b - a) * L._t(vals, self.shape, self.dtype))
+            L.log.append({"prim": "uniform_", "shape": list(self.shape), "vals": vals})
+            return self
+
+        def bernoulli_(self, p=0.5, *, generator=None):
+            vals = L.take("unif", self.numel())
+            self.copy_((L._t(vals, self.shape, torch.float64) < p).to(self.dtype))
+            L.log.append({"prim": "bernoulli_", "shape": list(self.shape), "vals": vals})
+            return self
+
+        def poisson(input, generator=None):
+            vals = L.take("pois", input.numel())
+            out = L._t(vals, input.shape, input.dtype)
+            out = torch.where(input == 0, torch.zeros_like(out), out)      # the sampler returns 0 at rate 0
+            L.log.append({"prim": "poisson", "shape": list(input.shape), "vals": out.reshape(-1).tolist()})
+            return out
+
+        def bernoulli(input, *args, generator=None, **kw):
+            if args or kw.get("p") is not None:
+                raise RuntimeError("stub layer: torch.bernoulli(input, p) is not covered")
+            vals = L.take("unif", input.numel())
+            L.log.append({"prim": "bernoulli", "shape": list(input.shape), "vals": vals})
+            return (L._t(vals, input.shape, torch.float64) < input.to(torch.float64)).to(input.dtype)
+
+        def rand(*size, generator=None, dtype=None, device=None, **kw):
+            if len(size) == 1 and isinstance(size[0], (tuple, list, torch.Size)):
+                size = tuple(size[0])
+            n = int(math.prod(size))
+            vals = L.take("unif", n)
+            L.log.append({"prim": "rand", "shape": list(size), "vals": vals})
+            return L._t(vals, size, dtype or torch.get_default_dtype())
+
+        def rand_like(input, **kw):
+            vals = L.take("unif", input.numel())
+            L.log.append({"prim": "rand_like", "shape": list(input.shape), "vals": vals})
+            return L._t(vals, input.shape, kw.get("dtype") or input.dtype)
+
+        torch.Tensor.exponential_ = exponential_
+        torch.Tensor.uniform_ = uniform_
+        torch.Tensor.bernoulli_ = bernoulli_
+        torch.poisson, torch.bernoulli, torch.rand, torch.rand_like = poisson, bernoulli, rand, rand_like
+        return self
+
+    def __exit__(self, *a):
+        for n in ("exponential_", "uniform_", "bernoulli_"):
+            delattr(torch.Tensor, n)          # the inherited C implementations are visible again
+        for n, f in self.saved.items():
+            setattr(torch, n, f)
+
+
+class NoStub:
+    log = None
+
+    def __enter__(self):
+        return self
+
+    def __exit__(self, *a):
+        pass
+
+
+def draws_from_log(case, log, n):
+    """arrange the logged draws the way the Coq model takes them"""
+    fam = {"hpe": "exp", "f_exp": "exp", "pie": "pint", "f_pint": "pint"}.get(case["kind"], "bern")
+    if fam == "bern":
+        flat = [v for e in log for v in e["vals"]]
+        return {"unif_rows": [flat[i:i + n] for i in range(0, len(flat), n)], "prims": sorted({e["prim"] for e in log})}
+    out = {"prims": sorted({e["prim"] for e in log})}
+    if not log:
+        return out
+    first = log[0]["vals"]
+    if case["online"]:
+        out["draws0"] = first
+        out["draws_steps_all"] = [e["vals"] for e in log[1:]]
+    else:
+        out["draws"] = [first[i:i + n] for i in range(0, len(first), n)]
+        out["extra_calls"] = len(log) - 1
+    return out
+
+
 def alias_probe(slices):
     """do distinct yielded slices share memory?  (i) equal data pointers, (ii) mutation probe: flipping one
     slice in place must leave every other slice unchanged"""
@@ -183,7 +300,9 @@ def run_once(case, want_draws, gather=False):
     out = {"status": "ok", "exc": None, "msg": None, "out": [], "nslices": 0, "shape_ok": True, "dtype_ok": True,
            "stage": None}
     rep = None
-    if want_draws:
+    DTYPE[0] = torch.float32 if case.get("dtype") == "f32" else torch.float64
+    stub = StubLayer(case["stub"]) if case.get("stub") else NoStub()
+    if want_draws and not case.get("stub"):
         try:
             rep = Replayer(case)
             out.update(rep.initial())
@@ -191,41 +310,50 @@ def run_once(case, want_draws, gather=False):
             rep = None
             out["replay_error"] = f"{type(e).__name__}: {e}"[:200]
     g = gen(case["seed"])
+    g_state, glob_state = g.get_state().clone(), torch.get_rng_state().clone()
     try:
-        out["stage"] = "call"
-        res = call(case, g, out)
-        if torch.is_tensor(res):
-            out["shape_ok"] = list(res.shape) == [int(case["steps"])] + list(case["shape"])
-            out["dtype_ok"] = res.dtype == torch.bool
-            out["out_shape"] = list(res.shape)
-            out["out"] = boolrows(res, n) if res.ndim >= 1 and res.numel() == res.shape[0] * n else []
-            out["nslices"] = int(res.shape[0]) if res.ndim >= 1 else 0
-        elif gather:
-            out["stage"] = "iterate"
-            slices = list(res)
-            out["nslices"] = len(slices)
-            out["shape_ok"] = all(list(s.shape) == list(case["shape"]) for s in slices)
-            out["dtype_ok"] = all(s.dtype == torch.bool for s in slices)
-            if slices and out["shape_ok"]:
-                out["out"] = boolrows(torch.stack(slices), n)
-                out["alias"] = alias_probe(slices)
-        else:
-            out["stage"] = "iterate"
-            sl = []
-            stepdraws = []
-            out["draws_steps"] = stepdraws
-            for s in res:
-                out["shape_ok"] = out["shape_ok"] and list(s.shape) == list(case["shape"])
-                out["dtype_ok"] = out["dtype_ok"] and s.dtype == torch.bool
-                sl.append([int(bool(v)) for v in s.reshape(-1).tolist()])
-                out["out"] = sl
-                out["nslices"] = len(sl)
-                if rep is not None:
-                    stepdraws.append(rep.step(s))
+        with stub:
+            out["stage"] = "call"
+            res = call(case, g, out)
+            if torch.is_tensor(res):
+                out["shape_ok"] = list(res.shape) == [int(case["steps"])] + list(case["shape"])
+                out["dtype_ok"] = res.dtype == torch.bool
+                out["out_shape"] = list(res.shape)
+                out["out"] = boolrows(res, n) if res.ndim >= 1 and res.numel() == res.shape[0] * n else []
+                out["nslices"] = int(res.shape[0]) if res.ndim >= 1 else 0
+            elif gather:
+                out["stage"] = "iterate"
+                slices = list(res)
+                out["nslices"] = len(slices)
+                out["shape_ok"] = all(list(s.shape) == list(case["shape"]) for s in slices)
+                out["dtype_ok"] = all(s.dtype == torch.bool for s in slices)
+                if slices and out["shape_ok"]:
+                    out["out"] = boolrows(torch.stack(slices), n)
+                    out["alias"] = alias_probe(slices)
+            else:
+                out["stage"] = "iterate"
+                sl = []
+                stepdraws = []
+                out["draws_steps"] = stepdraws
+                for s in res:
+                    out["shape_ok"] = out["shape_ok"] and list(s.shape) == list(case["shape"])
+                    out["dtype_ok"] = out["dtype_ok"] and s.dtype == torch.bool
+                    sl.append([int(bool(v)) for v in s.reshape(-1).tolist()])
+                    out["out"] = sl
+                    out["nslices"] = len(sl)
+                    if rep is not None:
+                        stepdraws.append(rep.step(s))
     except Exception as e:  # noqa
         out["status"] = "raised"
         out["exc"] = exc_code(e)
         out["msg"] = f"{type(e).__name__}: {e}"[:240]
+    if stub.log is not None:
+        out.update(draws_from_log(case, stub.log, n))
+        if "draws_steps_all" in out:
+            out["draws_steps"] = out.pop("draws_steps_all")[:max(out["nslices"], 0)]
+        # fail closed: a sampling primitive outside the stub layer would have advanced a real generator
+        out["rng_consumed"] = (not torch.equal(g.get_state(), g_state)
+                               or not torch.equal(torch.get_rng_state(), glob_state))
     return out
 
 
